@@ -168,6 +168,31 @@ def build_replay(U, job, ob, outdir, prop_id):
                 unit=U.name, verifier="cbmc 6.11 (goto-instrument --dfcc)", kind=ob.get("kind"))
     confirmed, output = None, ""
     try:
+        native = spec.extra.get("replay_native") if hasattr(spec, "extra") else None
+        if native:
+            # author-supplied native experiment: the counterexample's inputs as IN_<name> macros, the unit driver included;
+            # exit status 1 = the real code departs from the specification on these inputs
+            src = "#include <cstdio>\n#include <vector>\n#include <algorithm>\ntypedef unsigned long __CPROVER_size_t; typedef long __CPROVER_ssize_t;\n"
+            for k, v in cex.items():
+                src += "#define IN_%s (%s)\n" % (k, cxx_value(v.get("type") or "long", v))
+            src += '#include "%s"\n' % U.cpp
+            for m in sorted(set(re.findall(r"IN_(in_\w+)", native))):
+                src += "#ifndef IN_%s\n#define IN_%s 0 /* not in trace */\n#endif\n" % (m, m)
+            src += native
+            with open(base + ".cpp", "w") as fh:
+                fh.write(src)
+            exe = base + ".exe"
+            cmd = ["clang++", "-std=c++11", "-O0", "-w", "-g", "-fsanitize=address,undefined", "-fno-access-control", "-DNDEBUG", "-I" + repo_path(), "-I" + os.path.join(VERIF, "units"), base + ".cpp", "-o", exe]
+            p = subprocess.run(cmd, stdout=subprocess.PIPE, stderr=subprocess.PIPE, text=True, timeout=300)
+            info["replay_build"] = " ".join(cmd)
+            if p.returncode != 0:
+                raise ExtractionBreak("replay does not compile: " + p.stderr[-2000:])
+            r = subprocess.run([exe], stdout=subprocess.PIPE, stderr=subprocess.PIPE, text=True, timeout=60)
+            output = r.stdout + r.stderr
+            confirmed = (r.returncode != 0)
+            info["replay_exit"] = r.returncode
+            os.remove(exe)
+            raise StopIteration
         if ob.get("kind") not in ("ensures", "lemma"):
             raise ExtractionBreak("obligation kind '%s' is replayed with sanitizers only" % ob.get("kind"))
         src = PRE % dict(unit_cpp=U.cpp, label=label, prelude=os.path.join(VERIF, 'include', 'verif_prelude.h'))
@@ -205,6 +230,8 @@ def build_replay(U, job, ob, outdir, prop_id):
         confirmed = (r.returncode == 1)
         info["replay_exit"] = r.returncode
         os.remove(exe)
+    except StopIteration:
+        pass
     except (ExtractionBreak, ValueError, subprocess.TimeoutExpired) as ex:
         output = "replay not possible: %s" % ex
         confirmed = None
